@@ -8,7 +8,7 @@ _determine_license_path (file-system probes).
 """
 from pathlib import Path
 
-from vf.harness.common import PARAMS, nativize_pathlib
+from vf.harness.common import PARAMS, native, nativize_pathlib
 
 import reuse.project as pj
 from reuse import ReuseInfo, SourceType, _LICENSING
@@ -67,6 +67,11 @@ def _pick_from(i, allowed):
 
 
 def _info_of(kind, who, path, original):
+    return _info_of_native(str(kind), who, str(path), str(original))
+
+
+@native
+def _info_of_native(kind, who, path, original):
     """What the (stubbed) reader returns for a file of this kind — same contract as the real
     reuse_info_of_file: empty unless copyright or licensing was found; source type by suffix."""
     c = {f"2021 {who}"} if "c" in kind and kind in ("c", "cl") else set()
